@@ -535,8 +535,17 @@ func runC17(r *Run) {
 			if !ok || (b.Op != token.EQL && b.Op != token.NEQ) {
 				return false
 			}
+			isHost := func(v ssa.Value) bool {
+				return valueIsLoadOfField(v, hostF) || storedIntoField(stripConvs(v), map[*types.Var]int64{hostF: 0}) == hostF
+			}
+			// len(host) == 0 is the same test
+			if lc, isL := b.X.(*ssa.Call); isL && isBuiltinCall(lc, "len") {
+				if z, isZ := constInt(b.Y); isZ && z == 0 && isHost(lc.Call.Args[0]) {
+					return true
+				}
+			}
 			s, isS := constString(b.Y)
-			return isS && s == "" && (valueIsLoadOfField(b.X, hostF) || storedIntoField(stripConvs(b.X), map[*types.Var]int64{hostF: 0}) == hostF)
+			return isS && s == "" && isHost(b.X)
 		}) {
 			b := ci.Val.(*ssa.BinOp)
 			nonEmpty := ci.OnFalse
@@ -974,9 +983,16 @@ func checkParseProto(r *Run, rc *RuleCtx, uc *uriConsts) {
 			return
 		}
 		key, pol := kk.condKey(iff.Cond)
-		// len(qArgs) > 1 / > 0
-		if lc, ok := bo.X.(*ssa.Call); ok && isBuiltinCall(lc, "len") && bo.Op == token.GTR {
-			if n, ok := constInt(bo.Y); ok {
+		// len(qArgs) > 1 / > 0, in any equivalent spelling (>= 2, != 0)
+		if lc, ok := bo.X.(*ssa.Call); ok && isBuiltinCall(lc, "len") && (bo.Op == token.GTR || bo.Op == token.GEQ || bo.Op == token.NEQ) {
+			n, ok := constInt(bo.Y)
+			switch {
+			case ok && bo.Op == token.GEQ:
+				n--
+			case ok && bo.Op == token.NEQ && n != 0:
+				ok = false
+			}
+			if ok {
 				// len(qArgs["transport"]) > 1: the values of the one key (url.ParseQuery folds repeated keys)
 				if lk, isLk := lc.Call.Args[0].(*ssa.Lookup); isLk && !lk.CommaOk {
 					if ks, isS := constString(lk.Index); isS && ks == "transport" && n == 1 {
